@@ -278,10 +278,7 @@ theorem C07_remove_clears {E : Env} (hw : WfEnv E) (ops : List Op) (s : St) (h :
       · next hod =>
         split at hr
         · cases hr; simp [hos, hod]
-        · obtain ⟨r1, _, hr⟩ := bind_ok.mp hr
-          obtain ⟨r2, _, hr⟩ := bind_ok.mp hr
-          cases pure_ok.mp hr
-          simp [hos, hod]
+        · cases hr; simp [hos, hod]
       · next hod => cases hr; simp [hos, hod]
   have hgone : o ∉ s'.statics ∧ o ∉ s'.dynamics := by
     rw [hlists.1, hlists.2]
